@@ -380,7 +380,8 @@ TokenOpGuard(name, t) ==
   ELSE /\ name = "enable" => (~Borrowed(s) /\ (~enabled[s] \/ KindOf(s) # "timer"))
        \* (update of a disabled fd-backed source is allowed: it fails with ENOENT and changes nothing)
        /\ name = "update" => ((enabled[s] \/ (KindOf(s) # "timer" /\ ~Borrowed(s))) /\ (Borrowed(s) => pending = "continue"))
-       /\ name = "disable" => (enabled[s] /\ (Borrowed(s) => pending = "continue"))
+       \* (disable of a disabled fd-backed source is allowed: it fails with ENOENT and changes nothing)
+       /\ name = "disable" => ((enabled[s] \/ (KindOf(s) # "timer" /\ ~Borrowed(s))) /\ (Borrowed(s) => pending = "continue"))
 
 \* environment: ping / write a byte / read everything / drop a ping handle / set_deadline / time
 Ping(s) ==
